@@ -518,7 +518,9 @@ class Buildable(Generic[T], metaclass=abc.ABCMeta):
             if new_value == old_placeholders[index]:
               continue
             else:
-              new_value = self.__arguments__[new_value.index]
+              # Read the pre-assignment value: `self.__arguments__` may already
+              # have been overwritten at that index by this loop.
+              new_value = all_positional_args[new_value.index]
           self._arguments_set_value(index, new_value)
         else:
           self._arguments_del_value(index)
@@ -527,7 +529,7 @@ class Buildable(Generic[T], metaclass=abc.ABCMeta):
       for index in range(len_old, len_new):
         new_value = new_placeholders[index]
         if isinstance(new_value, _Placeholder):
-          new_value = self.__arguments__[new_value.index]
+          new_value = all_positional_args[new_value.index]
         self._arguments_set_value(index, new_value)
 
   def __setitem__(self, key: Any, value: Any):
